@@ -155,17 +155,24 @@ CHECKS = {
    technique="Rocq proof (invariants of pairing/fold/count, product-automaton certificate for distinct starts) + malformed-input oracle",
    ref="DESIGN.md section 5, C05"),
  "C19": dict(
-   text="Coq theorems (Props/C19.v; proofs Agg/Percent.v) about the function re-translated from Report.quality_profile_percentage "
-        "on every run (exact rational reading of `/` and 0.001, ceil as integer ceiling): for all four non-negative integers the "
-        "three displayed figures are integers in 0..100 summing to 100, each strictly within two points of the true share, a "
-        "hard/unmaintainable share above 0.001 % never shows as 0, all-zero shows 100/0/0; the verdict tests of the text "
-        "summary, the Markdown summary and the table styles are each proved equal to `unm% > 0 or hard% > 20`.  The binary64 "
-        "evaluation the code performs is tied to the exact model by exhaustive comparison for totals <= 16 (quick) / 60 and "
-        "random totals up to 10^9.",
-   note="Trusted: Coq kernel; translator (rational mode for ceil); the float-vs-rational bridge is validated, not proved "
-        "(margin argument in DESIGN.md); rich rendering of cells.",
-   technique="Rocq proof (nia/lia over exact ceilings) on source-translated definitions + exhaustive small-total correspondence",
-   ref="DESIGN.md section 5, C19"),
+   text="Coq theorems (Props/C19.v; proofs Agg/Percent.v, Agg/PercentFloatProofs.v) about definitions re-translated from "
+        "Report.quality_profile_percentage, SummaryTable and both print_summary functions on every run, in two layers.  (1) Exact "
+        "arithmetic (`/` and 0.001 as rationals, ceil as integer ceiling): for all four non-negative integers the three displayed "
+        "figures are integers in 0..100 summing to 100, each strictly within two points of the true share, a hard/unmaintainable "
+        "share above 0.001 % never shows as 0, all-zero shows 100/0/0; the verdict tests of the text summary, the Markdown summary "
+        "and the table styles each equal `unm% > 0 or hard% > 20`.  (2) Floating point: the code evaluates the three ceil() in "
+        "binary64 and at shares of exactly n.001 % really differs from layer 1 (9001 of 100000 lines: 10 % instead of 9 %), so the "
+        "same clauses are proved for EVERY admissible outcome `may_show` — each ceil() being the ceiling of some value within "
+        "10^-12 of the exact one, followed by the surplus adjustment and the easy remainder exactly as the source states them "
+        "(`quality_profile_adjust`, regenerated) — with the never-hidden clause for totals below 10^9 lines; the exact model is "
+        "one admissible outcome and `may_show_b` decides admissibility (sound and complete).  Tie: the implementation's figures "
+        "are checked to be admissible, inside Coq, for every profile with total <= 16 (quick) / 60, for profiles at and next to "
+        "every n.001 % threshold, and for random totals up to 10^9.",
+   note="Trusted: Coq kernel; translator (rational mode for the expression inside ceil, the ceil results as parameters of the "
+        "adjustment); that binary64 evaluation stays within 10^-12 of the exact value is checked per case by the admissibility "
+        "test (a Flocq proof of that bound is attempted separately, see DESIGN.md); rich rendering of cells.",
+   technique="Rocq proof (nia/lia over exact ceilings and over every tolerance-admissible outcome) on source-translated definitions + admissibility of the implementation's outputs decided in Coq",
+   ref="DESIGN.md sections 5 and 9, C19"),
 
  "C03": dict(
    text="Coq theorem C03_scan_total (Props/C03.v; proofs Scope/TotalProofs*.v, Gsm/HasNameProofs.v, Gsm/UnambProofs.v): for "
